@@ -3,19 +3,20 @@ from ..rules import tracker as T
 from ..rules import process as Pr
 
 EXPLANATION = (
-    "Static analysis. The tracker loop is a small state machine whose transition function is visible in the code: the "
-    "per-line dispatch is abstractly interpreted over (command literal or unknown, resource type known/unknown, refcount "
-    "absent/1/2/3) -- 40+ rows -- and compared with the refcounting contract: REGISTER +1 (1 if absent) no cleanup; "
-    "UNREGISTER delete, no cleanup; MAYBE_UNLINK -1 and, iff the post-decrement count is 0, delete + exactly one cleanup "
-    "of that type with that name; PROBE nothing; unknown command or type raise before any mutation (R-RT-TABLE). The "
-    "dispatch sits inside a BaseException barrier that cannot leave the loop, the only loop exit is EOF, the sweep is in "
-    "finally, visits every type once and folders last, each name in its own try (R-RT-LOOP). name = ':'-join of the middle "
-    "fields; every command literal sent by loky's and the stdlib's clients (read from the stdlib AST) is dispatched; every "
-    "resource type used in loky has a cleanup function (R-RT-PROTO). The abstract interpreter evaluates the dispatch AST "
-    "over an abstract domain; it does not run loky. The EOF test looks at the unmodified readline() result (a blank line "
-    "is malformed input, not EOF). loky stays vendorable: its own modules are imported relatively and the child "
-    "interpreters (worker `-m`, tracker `-c`) are given the module name of this copy, never a literal (R-VENDOR). "
-    "Not decided: OS unlink semantics."
+    'Static analysis. The tracker loop is a small state machine whose transition function is visible in the code: the '
+    'per-line dispatch is abstractly interpreted over (command literal or unknown, resource type known/unknown, '
+    'refcount absent/1/2/3) -- 40+ rows -- and compared with the refcounting contract: REGISTER +1 (1 if absent) no '
+    'cleanup; UNREGISTER delete, no cleanup; MAYBE_UNLINK -1 and, iff the post-decrement count is 0, delete + exactly '
+    'one cleanup of that type with that name; PROBE nothing; unknown command or type raise before any mutation '
+    '(R-RT-TABLE). The dispatch sits inside a BaseException barrier that cannot leave the loop, the only loop exit is '
+    'EOF, the sweep is in finally, visits every type once and folders last, each name in its own try (R-RT-LOOP). '
+    "name = ':'-join of the middle fields; every command literal sent by loky's and the stdlib's clients (read from "
+    'the stdlib AST) is dispatched; every resource type used in loky has a cleanup function (R-RT-PROTO). The '
+    'abstract interpreter evaluates the dispatch AST over an abstract domain; it does not run loky. The EOF test '
+    'looks at the unmodified readline() result (a blank line is malformed input, not EOF). loky stays vendorable: its '
+    'own modules are imported relatively and the child interpreters (worker `-m`, tracker `-c`) are given the module '
+    'name of this copy, never a literal (R-VENDOR). Also decided: the registry entry is deleted before its cleanup '
+    'function runs (R-RT-TABLE). Not decided: OS unlink semantics.'
 )
 
 
